@@ -81,6 +81,12 @@ BUILT = {
    note="integer lattice (quantum unit 1500, sizes multiples of 500); where the scan resumes after an idle period is left open as the property does",
    design="6/C15"),
 
+ "C16": dict(
+   technique="TLA+ specs TcpSink.tla and TcpLoop.tla model-checked with TLC (safety, liveness under weak fairness, NoSpuriousRetx) + TLC trace validation of the real TCPSink and of real sender-wire-sink loops with scripted drop patterns",
+   text="TLC checks AckIsPrefix/AckMonotone over all arrival sequences of <=5 segments (reordered, duplicated, gaps, first missing) and, for the untimed loop model with <=2 data and <=2 ACK drops, NoCrash, MarkIsTrue, TimersAreOutstanding, <>AllDelivered under weak fairness and NoSpuriousRetx on loss-free timely paths; the real TCPSink is driven with emitted and random arrival sequences, and real TCPPacketGenerator (Reno and CUBIC) -> Wire -> TCPSink -> Wire loops are run under every pattern of <=2+2 drops over the first 8 transmissions, the recorded event order (transmissions, sink arrivals/ACKs, ACK arrivals with last_ack/next_seq, end state) being validated against the loop specification.",
+   note="the loop model is untimed; window size, RTO values and which duplicate triggers fast retransmit are left to C17",
+   design="6/C16"),
+
  "C20": dict(
    technique="TLA+ spec Realtime.tla model-checked with TLC against an adversarial virtual wall clock + TLC trace validation of the real RealtimeEnvironment under a scripted monotonic/sleep pair; same programs executed on Environment and RealtimeEnvironment and validated against SimKernel",
    text="Exhaustive TLC runs over all agendas and wall-clock behaviours within the bounds (sleeps returning early, exactly, late, late by exactly factor; bodies consuming wall time; sync from the top level and from bodies; step repeated after a raise) check NeverEarly, StrictIff, NonStrictNeverRaises, SyncRebases, SleepsUntilDue; TLC-emitted schedules, random longer agendas and generated kernel programs are run on the real RealtimeEnvironment with onl.sim.rt.monotonic/sleep replaced by a scripted virtual clock, the pacing trace is validated against the specification, the kernel log must equal the plain Environment's and (initial time 0) is validated by TLC against SimKernel.",
